@@ -40,6 +40,7 @@ def install(reg):
         nn = to_int(a[1].items[0])
         xp_ = base_arr(fresh("xprime"), "row", nn)
         I.path.event("flow.draw", xp_)
+        I.path.event("zuko.call", "rsample_and_log_prob", I.path.ghost.get("no_grad_depth", 0) > 0)
         return Tup([xp_, rw("BASELP", BASE_LP, xp_, "real")])
 
     @H("ZukoDist.rsample")
@@ -47,10 +48,12 @@ def install(reg):
         nn = to_int(a[1].items[0])
         xp_ = base_arr(fresh("xprime"), "row", nn)
         I.path.event("flow.draw", xp_)
+        I.path.event("zuko.call", "rsample", I.path.ghost.get("no_grad_depth", 0) > 0)
         return xp_
 
     @H("ZukoDist.log_prob")
     def z_lp(I, a, k, n):
+        I.path.event("zuko.call", "log_prob", I.path.ghost.get("no_grad_depth", 0) > 0)
         return rw("BASELP", BASE_LP, a[1], "real")
 
     # flowjax distribution
@@ -65,8 +68,19 @@ def install(reg):
     def fj_lp(I, a, k, n):
         return rw("BASELP", BASE_LP, a[1], "real")
 
-    reg.handlers["xp.torch.no_grad"] = lambda I, a, k, n: Obj("nullctx", {})
+    # torch.no_grad(): results computed inside do not require grad (and can be exported / saved); the nesting depth is ghost state of the path
+    reg.handlers["xp.torch.no_grad"] = lambda I, a, k, n: Obj("NoGradCtx", {})
     reg.handlers["xp.no_grad"] = reg.handlers["xp.torch.no_grad"]
+
+    def ng_enter(I, a, k, n):
+        I.path.ghost["no_grad_depth"] = I.path.ghost.get("no_grad_depth", 0) + 1
+        return a[0]
+
+    def ng_exit(I, a, k, n):
+        I.path.ghost["no_grad_depth"] = I.path.ghost.get("no_grad_depth", 0) - 1
+        return NONE
+    reg.handlers["NoGradCtx.__enter__"] = ng_enter
+    reg.handlers["NoGradCtx.__exit__"] = ng_exit
     reg.handlers["xp.torch.as_tensor"] = lambda I, a, k, n: a[0]
     reg.handlers["xp.as_tensor"] = reg.handlers["xp.torch.as_tensor"]
 
@@ -126,6 +140,10 @@ class FlowSampleAndLogProb(Contract):
             return
         x, lq = r.items
         xpr = draws[0][1]
+        if self.cls == "ZukoFlow":
+            calls = [e for e in p.events if e[0] == "zuko.call"]
+            p.prove(z3.BoolVal(bool(calls) and all(e[2] for e in calls)),
+                    f"{q}:C15:C03:draws and their log-density are computed under torch.no_grad(): the returned arrays do not require grad, so a sample set that keeps them in the torch namespace can still be exported (to_numpy, save)")
         i = z3.Int(fresh("row"))
         inb = z3.And(i >= 0, i < g["n"])
         p.prove(z3.And(x.n == g["n"], lq.n == g["n"]), f"{q}:C03:n_samples draws with one log-density each")
